@@ -618,6 +618,10 @@ def mon_C07(case):
             amode = ""
             if act is not None:
                 a = prow["subs"].get(act[0])
+                # a loaded topic decides by the mode it holds in memory (that it is the stored one is C08's business: [offline-set])
+                pc = pre.cache.get(t)
+                if pc is not None and act[0] in pc["users"]:
+                    a = pc["users"][act[0]]
                 if a is not None and not a["deleted"]:
                     amode = eff(a["want"], a["given"])
             for u, s in row["subs"].items():
